@@ -381,16 +381,20 @@ pub fn exact(args: &[String]) {
                     }
                     board.toggle_turn();
                     let mut g = MoveGenerator::with_cache_capacity(16);
-                    let t = board.turn();
-                    let replies = g.generate_moves(&mut board, t);
-                    if replies.is_empty() {
-                        break;
+                    // odd sequences: the engine plays both sides with the one context (computer v computer);
+                    // even sequences: a reply chosen by the harness, the engine always has the same colour
+                    if s % 2 == 0 {
+                        let t = board.turn();
+                        let replies = g.generate_moves(&mut board, t);
+                        if replies.is_empty() {
+                            break;
+                        }
+                        let r = replies[rng.below(replies.len())].clone();
+                        if r.apply(&mut board).is_err() {
+                            break;
+                        }
+                        board.toggle_turn();
                     }
-                    let r = replies[rng.below(replies.len())].clone();
-                    if r.apply(&mut board).is_err() {
-                        break;
-                    }
-                    board.toggle_turn();
                     pos = Pos::of_board(&board);
                     let t2 = board.turn();
                     if g.generate_moves(&mut board, t2).is_empty() {
